@@ -126,6 +126,14 @@ func Instances(base Base, full bool) []Instance {
 	return g.out
 }
 
+// CompoundInstances generates the compound-edit operator (two documented edits on one field) for a base. It is
+// kept out of Instances: checks/c04 consumes that catalogue for its own oracles.
+func CompoundInstances(base Base, full bool) []Instance {
+	g := &gen{base: base, syntax: base.Name, full: full}
+	g.opFieldCompound()
+	return g.out
+}
+
 // SyntaxInstances generates the syntax-change operator (its own tiny base: the change must compile
 // under both syntaxes). "unspecified" is a proto2 file without any syntax declaration (legal; buf tracks
 // it as "syntax unspecified" and documents it as proto2): every ordered pair of the four spellings.
@@ -990,6 +998,100 @@ func (g *gen) opMapTypes() {
 				ex = append(ex, Expect{Rule: "FIELD_WIRE_JSON_COMPATIBLE_TYPE", Names: names, File: mr.File})
 			}
 			g.emit("map-type", v.variant, mr.File, mr.Nested+"#7", mr.Depth, n, ex...)
+		}
+	}
+}
+
+// opFieldCompound: two documented edits on the SAME field in one change (third strengthening round). Every other
+// operator edits one property of an element; here a field keeps its number and is renamed while its type
+// (scalar kind, message / enum type name, map key / value type) or its cardinality changes too, or its type and
+// cardinality change together. Each of the rules documented for either edit must still report the field: a
+// handler that treats the one edit as the explanation of a difference (e.g. "the entry type of a renamed map
+// field has another name anyway") must not lose the other. Expectations name the field by number and message
+// (which of the two field names a message quotes is left open, except for FIELD_SAME_NAME).
+func (g *gen) opFieldCompound() {
+	for _, mr := range g.base.Schema.Messages() {
+		if !hasStdBody(mr.Msg) {
+			continue
+		}
+		tt := typesOf[mr.File]
+		type editT struct {
+			variant  string
+			num      int
+			prep     func(f *Field) // shapes the field on both sides (nil: as in the base)
+			edit     func(f *Field) // the second edit, on the new side
+			from, to string         // kinds for the compatibility groups ("" = same kind, other type name: all three rules)
+			card     bool           // the edit (also) changes singular -> repeated
+			noType   bool           // the edit changes the cardinality only
+		}
+		setType := func(typ string) func(f *Field) { return func(f *Field) { f.Type = typ } }
+		kind := func(k string) func(f *Field) { return func(f *Field) { g.setKind(f, k, tt) } }
+		edits := []editT{
+			// map key / value types (the synthetic entry message is named after the field: a rename renames it too)
+			{variant: "map-value-int32-to-string", num: 7, edit: setType("map<string, string>"), from: "int32", to: "string"},
+			{variant: "map-value-int32-to-sint32", num: 7, edit: setType("map<string, sint32>"), from: "int32", to: "sint32"},
+			{variant: "map-value-int32-to-int64", num: 7, edit: setType("map<string, int64>"), from: "int32", to: "int64"},
+			{variant: "map-value-int32-to-message", num: 7, edit: setType("map<string, " + tt.msg + ">"), from: "int32", to: "message"},
+			{variant: "map-key-string-to-int32", num: 7, edit: setType("map<int32, int32>"), from: "string", to: "int32"},
+			{variant: "map-key-string-to-sint64", num: 7, edit: setType("map<sint64, int32>"), from: "string", to: "sint64"},
+			{variant: "map-value-message-to-other-message", num: 7, prep: setType("map<string, " + tt.msg + ">"), edit: setType("map<string, " + tt.altMsg + ">")},
+			{variant: "map-value-enum-to-other-enum", num: 7, prep: setType("map<string, " + tt.enum + ">"), edit: setType("map<string, " + tt.otherEnum + ">")},
+			// scalar kinds across / inside the compatibility groups
+			{variant: "int32-to-string", num: 20, edit: kind("string"), from: "int32", to: "string"},
+			{variant: "int32-to-sint32", num: 20, edit: kind("sint32"), from: "int32", to: "sint32"},
+			{variant: "int32-to-int64", num: 20, edit: kind("int64"), from: "int32", to: "int64"},
+			{variant: "int32-to-message", num: 20, edit: kind("message"), from: "int32", to: "message"},
+			{variant: "string-to-bytes", num: 2, edit: kind("bytes"), from: "string", to: "bytes"},
+			{variant: "enum-to-int32", num: 4, edit: kind("int32"), from: "enum", to: "int32"},
+			// same kind, other type
+			{variant: "message-to-other-message", num: 5, edit: setType(tt.altMsg)},
+			{variant: "enum-to-other-enum", num: 4, edit: setType(tt.otherEnum)},
+			{variant: "repeated-message-to-other-message", num: 5, prep: func(f *Field) { f.Label = "repeated" }, edit: setType(tt.altMsg)},
+			{variant: "oneof-member-int32-to-string", num: 11, edit: kind("string"), from: "int32", to: "string"},
+			// cardinality
+			{variant: "singular-to-repeated", num: 1, edit: func(f *Field) { f.Label = "repeated" }, card: true, noType: true},
+			{variant: "int32-to-repeated-string", num: 20, edit: func(f *Field) { g.setKind(f, "string", tt); f.Label = "repeated" }, from: "int32", to: "string", card: true},
+		}
+		for _, e := range edits {
+			for _, rename := range []bool{true, false} {
+				if !rename && !(e.card && !e.noType) {
+					continue // without the rename only the type + cardinality pair is a compound edit
+				}
+				bf := mr.Msg.Field(e.num)
+				old, nw := g.base.Schema.Clone(), g.base.Schema.Clone()
+				for _, sc := range []*Schema{old, nw} {
+					if e.prep != nil {
+						e.prep(sc.File(mr.File).Msg(mr.Nested).Field(e.num))
+					}
+				}
+				nf := nw.File(mr.File).Msg(mr.Nested).Field(e.num)
+				e.edit(nf)
+				names := []string{itoa(e.num), short(mr.Nested)}
+				key := KeyField(mr.Nested, e.num)
+				var ex []Expect
+				variant := e.variant
+				if rename {
+					nf.Name = bf.Name + "_renamed"
+					variant = "rename+" + e.variant
+					ex = append(ex, Expect{Rule: "FIELD_SAME_NAME", Names: []string{itoa(e.num), bf.Name, nf.Name, short(mr.Nested)}, File: mr.File, LocKey: key})
+				}
+				if !e.noType {
+					ex = append(ex, Expect{Rule: "FIELD_SAME_TYPE", Names: names, File: mr.File, LocKey: key})
+					if e.from == "" || WireBreaking(e.from, e.to) {
+						ex = append(ex, Expect{Rule: "FIELD_WIRE_COMPATIBLE_TYPE", Names: names, File: mr.File, LocKey: key})
+					}
+					if e.from == "" || WireJSONBreaking(e.from, e.to) {
+						ex = append(ex, Expect{Rule: "FIELD_WIRE_JSON_COMPATIBLE_TYPE", Names: names, File: mr.File, LocKey: key})
+					}
+				}
+				if e.card {
+					ex = append(ex,
+						Expect{Rule: "FIELD_SAME_CARDINALITY", Names: names, File: mr.File, LocKey: key},
+						Expect{Rule: "FIELD_WIRE_COMPATIBLE_CARDINALITY", Names: names, File: mr.File, LocKey: key},
+						Expect{Rule: "FIELD_WIRE_JSON_COMPATIBLE_CARDINALITY", Names: names, File: mr.File, LocKey: key})
+				}
+				g.emitPair("field-compound", variant, mr.File, fmt.Sprintf("%s#%d", mr.Nested, e.num), mr.Depth, old, nw, ex...)
+			}
 		}
 	}
 }
